@@ -120,6 +120,8 @@ func post(c *ev.Check, outs []*run.Outcome) {
 	for _, k := range []string{"start", "register", "auth", "report", "rotate", "restart"} {
 		c.Require("achieved."+k, 1)
 	}
+	c.Require("ops.migrate_acked", 3)
+	c.Require("ops.storm_auth_acked", 3)
 }
 
 // ---------------------------------------------------------------- plan
@@ -265,6 +267,27 @@ func (g *gen) location() (float64, float64) {
 	default:
 		return sign() * 360 * g.rng.Float64(), sign() * 720 * g.rng.Float64()
 	}
+}
+
+// seqStormAuth appends an authorization that the victim posts concurrently
+// with the operation before it (a registration).
+func (g *gen) seqStormAuth(capacity uint64) {
+	op := g.mk("auth", "auth.storm", g.newAuth(capacity, g.sc.GCA).Bytes(), 0, -1)
+	op.Storm = true
+	g.sc.Ops = append(g.sc.Ops, op)
+}
+
+// seqMigrate appends a valid migration order for a live device (signed by the
+// GCA, one new server signed by the new GCA).
+func (g *gen) seqMigrate() {
+	ids := g.liveIDs()
+	if len(ids) == 0 {
+		return
+	}
+	sc := g.sc
+	srv := refenc.AuthServer{Pub: refenc.GenKey(g.rng).Pub, Location: fmt.Sprintf("host%d.example", g.rng.Intn(1000)), HTTP: uint16(1024 + g.rng.Intn(60000)), TCP: uint16(1024 + g.rng.Intn(60000)), UDP: uint16(1024 + g.rng.Intn(60000))}.Signed(sc.Alt.Priv)
+	m := refenc.Migration{Equipment: g.m.Eq[ids[g.rng.Intn(len(ids))]].Pub, NewGCA: sc.Alt.Pub, NewID: uint32(g.rng.Intn(1 << 20)), Servers: []refenc.AuthServer{srv}}.Signed(sc.GCA.Priv)
+	g.seq("migrate", "migrate", m.JSON(), 0)
 }
 
 func (g *gen) liveIDs() []uint32 {
@@ -415,8 +438,9 @@ func genSeq(h int, seed int64) *Script {
 	g.seq("start", "start.first", nil, 0)
 	if h == 0 {
 		g.seq("register", "register", regBytes(sc.GCA.Pub, sc.Temp.Priv), 0)
+		g.seqStormAuth(capacity())
 		g.seq("auth", "auth.new", g.newAuth(capacity(), sc.GCA).Bytes(), 0)
-		g.seq("auth", "auth.new", g.newAuth(capacity(), sc.GCA).Bytes(), 0)
+		g.seqMigrate()
 		g.seq("clock", "clock", nil, 150)
 		g.seqReport("fresh")
 		g.seqReport("equiv")
@@ -431,6 +455,7 @@ func genSeq(h int, seed int64) *Script {
 		g.seq("auth", "auth.conflict.debt", c.Signed(sc.GCA.Priv).Bytes(), 0)
 		g.seq("register", "register.same", regBytes(sc.GCA.Pub, sc.Temp.Priv), 0)
 		g.seq("register", "register.other", regBytes(sc.Alt.Pub, sc.Temp.Priv), 0)
+		g.seqMigrate()
 		g.seq("clock", "clock", nil, 3000)
 		g.seqReport("fresh")
 		g.seqReport("fresh")
@@ -451,10 +476,10 @@ func genSeq(h int, seed int64) *Script {
 		g.seq("register", "register.badsig", regBytes(sc.GCA.Pub, sc.Alt.Priv), 0)
 	}
 	g.seq("register", "register", regBytes(sc.GCA.Pub, sc.Temp.Priv), 0)
+	g.seqStormAuth(capacity())
 	if g.rng.Intn(3) == 0 {
 		g.seq("register", "register.again", regBytes(sc.Alt.Pub, sc.Temp.Priv), 0)
 	}
-	g.seq("auth", "auth.new", g.newAuth(capacity(), sc.GCA).Bytes(), 0)
 	g.seq("auth", "auth.new", g.newAuth(capacity(), sc.GCA).Bytes(), 0)
 	g.seq("clock", "clock", nil, uint32(g.rng.Intn(300)))
 	type choice struct {
@@ -462,7 +487,7 @@ func genSeq(h int, seed int64) *Script {
 		w    int
 	}
 	choices := []choice{{"report.fresh", 30}, {"report.replay", 5}, {"report.equiv", 8}, {"report.overcap", 5}, {"report.negative", 3}, {"report.banneddev", 3}, {"report.stale", 2},
-		{"auth.new", 8}, {"auth.dup", 3}, {"auth.conflict.debt", 5}, {"auth.conflict.key", 3}, {"auth.badsig", 2}, {"clock", 6}, {"rotate", 7}, {"restart", 6}, {"register.same", 4}, {"register.other", 2}}
+		{"auth.new", 8}, {"auth.dup", 3}, {"auth.conflict.debt", 5}, {"auth.conflict.key", 3}, {"auth.badsig", 2}, {"clock", 6}, {"rotate", 7}, {"restart", 6}, {"register.same", 4}, {"register.other", 2}, {"migrate", 4}}
 	total := 0
 	for _, c := range choices {
 		total += c.w
@@ -503,6 +528,8 @@ func genSeq(h int, seed int64) *Script {
 			g.seqRotate()
 		case "restart":
 			g.seq("restart", name, nil, 0)
+		case "migrate":
+			g.seqMigrate()
 		case "register.same": // the lockbook repeats its registration (lost response)
 			g.seq("register", name, regBytes(sc.GCA.Pub, sc.Temp.Priv), 0)
 		case "register.other":
@@ -517,6 +544,9 @@ func genSeq(h int, seed int64) *Script {
 	if !did["rotate"] {
 		g.seqRotate()
 		g.seqReport("fresh")
+	}
+	if !did["migrate"] {
+		g.seqMigrate()
 	}
 	if !did["register.same"] {
 		g.seq("register", "register.same", regBytes(sc.GCA.Pub, sc.Temp.Priv), 0)
@@ -980,10 +1010,11 @@ func (d *driver) runCase(cs caseSpec) (co caseOut) {
 		args := []string{"-f", "-qq", "-o", straceLog, "-e", "trace=" + traceSet, "-e", "signal=none"}
 		if cs.Mode == "sys" {
 			args = append(args, "-P", filepath.Join(srv, cs.File), "-e", fmt.Sprintf("inject=%s:signal=KILL:when=%d", cs.Sys, cs.N))
-			if cs.Kind == "rotate" && cs.Sys == "write" {
-				// Hold the rotating thread for 60 ms on entry of the openat that precedes
-				// the aimed write (other threads keep running): if the rotation is
-				// already visible at that point, the victim's watcher gets to record it.
+			if (cs.Kind == "rotate" || cs.Kind == "register") && cs.Sys == "write" {
+				// Hold the thread for 60 ms on entry of the openat that precedes the aimed
+				// write (other threads keep running): if the operation's effect is already
+				// visible at that point, the rotation watcher gets to record it and the
+				// authorization posted concurrently with a registration gets in.
 				args = append(args, "-e", "inject=openat:delay_enter=60000")
 			}
 		} else {
@@ -1178,6 +1209,19 @@ func (d *driver) runCase(cs caseSpec) (co caseOut) {
 	for _, i := range infl {
 		r.Count("inflight."+byI[i].K, 1)
 	}
+	mig, storm := false, false
+	for i, res := range lg.Ended {
+		if op := byI[i]; res == "st=200" {
+			mig = mig || op.K == "migrate"
+			storm = storm || op.Storm
+		}
+	}
+	if mig {
+		r.Count("ops.migrate_acked", 1) // crashes after at least one accepted migration order
+	}
+	if storm {
+		r.Count("ops.storm_auth_acked", 1) // ... after an authorization posted concurrently with the registration
+	}
 
 	// the oracle, in a fresh process
 	outPath := filepath.Join(caseDir, "inspect.json")
@@ -1316,7 +1360,8 @@ func lastN(l []string, n int) []string {
 // operation whose BEGIN/END markers (writes to the oplog) bracket them.
 func censusOf(evs []sevent, srv, oplogPath string) map[int][]sevent {
 	out := map[int][]sevent{}
-	cur := -1
+	open := map[int]bool{}
+	cur := -1 // lowest-numbered operation that is in progress
 	for _, e := range evs {
 		if e.Marker != "" {
 			if e.Path != oplogPath {
@@ -1325,9 +1370,16 @@ func censusOf(evs []sevent, srv, oplogPath string) map[int][]sevent {
 			var i int
 			if strings.HasPrefix(e.Marker, "BEGIN ") {
 				fmt.Sscanf(e.Marker, "BEGIN %d", &i)
-				cur = i
+				open[i] = true
 			} else {
-				cur = -1
+				fmt.Sscanf(e.Marker, "END %d", &i)
+				delete(open, i)
+			}
+			cur = -1
+			for k := range open {
+				if cur < 0 || k < cur {
+					cur = k
+				}
 			}
 			continue
 		}
@@ -1382,6 +1434,9 @@ func child(b run.Batch, r *ev.Result) {
 		}
 		var aims []aim
 		for _, op := range flat {
+			if op.Storm {
+				continue // runs concurrently with the previous op; its own append is an ordinary authorization
+			}
 			cnt := map[string]int{}
 			var order []string
 			for _, e := range co.Census[op.I] {
@@ -1503,7 +1558,7 @@ func child(b run.Batch, r *ev.Result) {
 				if op.K == "restart" && p[0] != "equipment-reports.dat" {
 					continue // read-only opens of the other files
 				}
-				ns := []int{1, c / 2, c} // long runs (re-append of every live report) are sampled
+				ns := []int{1, 2, 3, c / 2, c - 1, c} // long runs (re-append of every live report) are sampled
 				seen := map[int]bool{}
 				for _, n := range ns {
 					if n < 1 || n > c || seen[n] {
